@@ -7,7 +7,10 @@ For the given property it takes
   * every recorded hand mutant in selftest/mutants.jsonl (one textual
     replacement in one file), and
   * every confirmed seeded change under seeded/*/ whose meta.json names the
-    property (a unified diff),
+    property (a unified diff), and
+  * every behaviour-preserving refactoring under neutral/*/ (written by
+    independent sub-agents; the suite passes with each): on these the rules
+    must stay quiet, a report is a SELFTEST-FALSE-ALARM,
 applies each one to its own scratch copy of the repository (outside /repo and
 /verif, removed afterwards), makes sure the variant still compiles, runs the
 property's rules on the variant (one zycheck process per variant) and records
@@ -63,6 +66,9 @@ def variants(prop):
             out.append(dict(kind="seeded", name=os.path.basename(d), patch=patch,
                             expect=exp.get(prop, "") if isinstance(exp, dict) else "",
                             detected_by=m.get("detected_by", {})))
+    # behaviour-preserving refactorings written by independent sub-agents: none of them may be reported
+    for patch in sorted(glob.glob(os.path.join(VERIF, "neutral", "*", "patch.diff"))):
+        out.append(dict(kind="neutral", name=os.path.basename(os.path.dirname(patch)), patch=patch, expect=""))
     return out
 
 
@@ -105,6 +111,15 @@ def run_variant(prop, v):
                 if len(parts) > 1:
                     rules.append(parts[1] + "(undecided)")
         res["rules_fired"] = sorted(set(rules))
+        if v["kind"] == "neutral":
+            if rc == 0:
+                res["status"] = "neutral-quiet"
+            elif rc == 1:
+                res["status"] = "FALSE-ALARM"
+            else:
+                rc2, _ = sh("go build ./zygo/ ./cmd/zygo/", cwd=d)
+                res["status"] = "skipped-does-not-compile" if rc2 != 0 else "error-rc%d" % rc
+            return res
         if rc == 1 and rules:
             exp = v.get("expect", "")
             res["status"] = "detected" if (not exp or exp in rules) else "detected-by-other-rule"
@@ -147,11 +162,11 @@ def main():
     tally = {}
     for r in results:
         tally[r["status"]] = tally.get(r["status"], 0) + 1
-        tag = "SELFTEST-MISS" if r["status"] == "MISS" else "selftest"
+        tag = "SELFTEST-MISS" if r["status"] == "MISS" else ("SELFTEST-FALSE-ALARM" if r["status"] == "FALSE-ALARM" else "selftest")
         print("%s property=%s %s %s: %s %s" % (tag, prop, r["kind"], r["name"], r["status"],
                                               ",".join(r.get("rules_fired", []))[:200]))
     summary = dict(variants=len(results), tally=tally, wall_s=round(time.time() - t0, 1),
-                   rule="each variant is one recorded source change (hand mutant or confirmed seeded patch) applied to a scratch copy that still compiles; 'detected' = the property's rules exit 1 and the expected rule is among those that fire",
+                   rule="each variant is one recorded source change (hand mutant or confirmed seeded patch) applied to a scratch copy that still compiles; 'detected' = the property's rules exit 1 and the expected rule is among those that fire; a 'neutral' variant is a behaviour-preserving refactoring on which the rules must exit 0",
                    results=results)
     print("selftest property=%s variants=%d %s" % (prop, len(results), json.dumps(tally, sort_keys=True)))
     try:
